@@ -567,3 +567,8 @@ def run(ctx, rep):
     K.share(ctx, rep, "c06", lambda o: o.rule == "R06.3", "R02.9", floor=1)
     K.share(ctx, rep, "c06", lambda o: o.rule == "R06.4", "R02.11", floor=1)
     K.share(ctx, rep, "c03", lambda o: o.rule in ("R03.1", "R03.2"), "R02.12", floor=4)
+    from . import hygiene as H2
+    H2.no_memo(ctx, rep, "R02.3", {"rpyc.core.netref", "rpyc.lib", "rpyc.core.protocol"},
+               "the local counterpart of a remote class is looked up in sys.modules, which changes as modules are imported or "
+               "reloaded - a remembered 'not found' (or an old class object) makes isinstance() and __class__ of later proxies "
+               "disagree with the target")
